@@ -130,6 +130,11 @@ class Ctx:
             for i, c in enumerate(goal.children()):
                 self.oblige(c, f"{label}.{i}", kind, note, assume_after)
             return
+        if kind not in ("ensures", "raises"):
+            # obligations raised inside the body (callee preconditions, index bounds, loop invariants) are
+            # named by the decisions taken so far: two paths share such an obligation exactly when they
+            # share that prefix (the executor is deterministic), so equal names mean equal formulas
+            label = f"{label}@{''.join('T' if b else 'F' for b in self.script[: self.pos]) or '-'}"
         name = self._unique(f"{self.prefix}#{kind}:{label}")
         self.obligations.append(
             Obligation(name, kind, len(self.assumptions), goal, self.cur_line, note)
